@@ -317,6 +317,9 @@ func (sesh *Session) Close() error {
 	if err != nil {
 		return err
 	}
+	// from here on this call owns the teardown: whether or not the closing notice can be sent, every connection
+	// must be closed (a failing send cannot do it, closeSession has already been won)
+	defer sesh.sb.closeAll()
 	// we send a notice frame telling remote to close the session
 
 	buf := sesh.streamObfsBufPool.Get().(*[]byte)
@@ -339,7 +342,6 @@ func (sesh *Session) Close() error {
 	if err != nil {
 		return err
 	}
-	sesh.sb.closeAll()
 	log.Debugf("session %v closed gracefully", sesh.id)
 	return nil
 }
